@@ -46,6 +46,13 @@ TreeOf(rows, inLayer) ==
 DiffPaths(a, b) == {p \in Paths : a[p] # b[p]}
 DiffDetail(a, b) == LET D == DiffPaths(a, b) IN [p \in D |-> <<a[p], b[p]>>]
 Covered(D) == {p \in Paths : p \in D \/ \E a \in D : IsAncestor(a, p)}
+Related(p, D) == \E q \in D : q = p \/ IsAncestor(q, p) \/ IsAncestor(p, q)
+\* which compared fields differ somewhere ("t" alone when an entry is missing/extra or of another type)
+DiffKind(a, b) ==
+  LET D == DiffPaths(a, b)
+      F(f) == \E p \in D : a[p][f] # b[p][f]
+  IN IF F("t") THEN "t"
+     ELSE (IF F("m") THEN "m" ELSE "") \o (IF F("c") THEN "c" ELSE "") \o (IF F("tg") THEN "g" ELSE "") \o (IF F("x") THEN "x" ELSE "")
 
 OpName == lastop.op
 OpClass == IF lastop.op = "init" THEN "initial" ELSE PreClass(preup, lowers, lastop.p)
@@ -77,12 +84,15 @@ CheckView(rows, st) ==
       ok == st = 0
   IN IF ~RowsOK(rows) THEN Viol(Sig("C10", "rows-malformed"), rows)
      ELSE IF lastop.op = "rename" THEN TRUE
+     \* the live instance already disagrees with its own disk state around this path (reported
+     \* when it arose): what an operation does there is not attributed to the operation
+     ELSE IF Related(lastop.p, div) \/ (lastop.src # <<>> /\ Related(lastop.src, div)) THEN TRUE
      ELSE IF ~exp.free /\ ok /\ ~exp.ok THEN Viol(Sig("C10", "unexpected-success"), <<lastop, st>>)
      ELSE IF ~exp.free /\ ~ok /\ exp.ok THEN
             (IF logged = before THEN Viol(Sig("C10", "unexpected-failure"), <<lastop, st>>)
-             ELSE Viol(Sig("C10", "unexpected-failure-and-changed"), <<lastop, st, DiffDetail(logged, before)>>))
-     ELSE IF ok THEN (IF logged = after THEN TRUE ELSE Viol(Sig("C10", "view-differs"), <<lastop, DiffDetail(logged, after)>>))
-     ELSE IF logged # before THEN Viol(Sig("C10", "failed-but-changed"), <<lastop, st, DiffDetail(logged, before)>>)
+             ELSE Viol(Sig("C10", "unexpected-failure-and-changed-" \o DiffKind(logged, before)), <<lastop, st, DiffDetail(logged, before)>>))
+     ELSE IF ok THEN (IF logged = after THEN TRUE ELSE Viol(Sig("C10", "view-differs-" \o DiffKind(logged, after)), <<lastop, DiffDetail(logged, after)>>))
+     ELSE IF logged # before THEN Viol(Sig("C10", "failed-but-changed-" \o DiffKind(logged, before)), <<lastop, st, DiffDetail(logged, before)>>)
      ELSE IF ~exp.free /\ exp.errs # {} /\ st \notin exp.errs THEN Viol(Sig("C10", "errno"), <<lastop, st, exp.errs>>)
      ELSE TRUE
 
@@ -92,7 +102,7 @@ CheckRestarted(rows) ==
       new == DiffPaths(R, V) \ Covered(div)
   IN IF ~RowsOK(rows) THEN Viol(Sig("C11", "rows-malformed"), rows)
      ELSE IF new = {} THEN TRUE
-     ELSE Viol(Sig("C11", "restart-differs"), <<lastop, [p \in new |-> [restarted |-> R[p], live |-> V[p]]]>>)
+     ELSE Viol(Sig("C11", "restart-differs-" \o DiffKind(R, V)), <<lastop, [p \in new |-> [restarted |-> R[p], live |-> V[p]]]>>)
 
 CheckLower(r) ==
   IF digests[r.k] = "" \/ digests[r.k] = r.digest THEN TRUE
